@@ -312,6 +312,30 @@ pub fn parallel<J: Send>(jobs: Vec<J>, workers: usize, property: &str, f: impl F
     }
 }
 
+thread_local! { static CRUMB_FILE: std::cell::RefCell<Option<(std::fs::File, u64)>> = const { std::cell::RefCell::new(None) }; }
+static CRUMB_SEQ: std::sync::atomic::AtomicU64 = std::sync::atomic::AtomicU64::new(0);
+
+/// writes the script of the state being driven to this thread's breadcrumb file (only when PVH_CRUMBS_DIR is set)
+pub fn crumb(history: &[String]) {
+    use std::io::{Seek, Write};
+    let Ok(dir) = std::env::var("PVH_CRUMBS_DIR") else { return };
+    CRUMB_FILE.with(|c| {
+        let mut c = c.borrow_mut();
+        if c.is_none() {
+            let k = CRUMB_SEQ.fetch_add(1, std::sync::atomic::Ordering::Relaxed);
+            if let Ok(f) = std::fs::File::create(format!("{dir}/crumb-{}-{k}.txt", std::process::id())) {
+                *c = Some((f, 0));
+            }
+        }
+        if let Some((f, _)) = c.as_mut() {
+            let text = history.join("\n");
+            let _ = f.set_len(0);
+            let _ = f.seek(std::io::SeekFrom::Start(0));
+            let _ = f.write_all(text.as_bytes());
+        }
+    });
+}
+
 pub fn n_workers() -> usize {
     std::thread::available_parallelism().map(|n| n.get()).unwrap_or(4).min(16)
 }
